@@ -8,7 +8,8 @@ from vlib.harness import Violation
 
 PID = "C24"
 RULE = ("(source key of one of the four curves, batch of 1..6 manager operations of every kind with fee / counter / gas_limit / "
-        "storage_limit left to the client, account counter on the node up to 2^64, amounts up to 2^63, mode): mode = fill() "
+        "storage_limit left to the client, account counter on the node up to 2^64, amounts up to 2^63, node constants (hard gas / "
+        "storage limits per operation as on mainnet or different), mode): mode = fill() "
         "(default limits) or autofill() against a simulated node whose run_operation answers `applied` with generated "
         "consumed_milligas (0 .. 1.04e9), paid_storage_size_diff, allocations and internal operation results. The group is then "
         "signed with the real key. Oracle: the node's default mempool rule evaluated independently on the SIGNED operation, in "
@@ -62,6 +63,7 @@ def oracle(case):
     node = fake_node.FakeNode()
     node.counters[pkh] = case["node_counter"]
     node.run_operation_handler = _sim_handler(case["sim"])
+    node.constants.update({k: str(v) for k, v in case.get("constants", {}).items()})
     ctx = ExecutionContext(key=key, shell=fake_node.shell(node))
     opg = OperationGroup(context=ctx, contents=[_blank(c) for c in case["contents"]])
     mode = case["mode"]
@@ -111,7 +113,12 @@ def cases(draw, curves, max_n):
     sim = [{"milligas": draw(st.one_of(st.integers(0, 5_000_000), st.integers(0, 1_040_000_000), st.sampled_from([0, 999, 1000, 1001, 1_040_000_000]))),
             "storage": draw(st.sampled_from([0, 0, 1, 67, 257, 4000])), "alloc": draw(st.booleans()),
             "internal": draw(st.lists(st.integers(0, 3_000_000), max_size=2))} for _ in range(n)]
+    constants = {}
+    if draw(st.integers(0, 2)) == 0:  # protocol constants differ between networks and change with upgrades
+        constants = {"hard_gas_limit_per_operation": draw(st.sampled_from([800_000, 1_040_300, 1_300_000, 5_200_000])),
+                     "hard_storage_limit_per_operation": draw(st.sampled_from([30_000, 60_000, 120_000]))}
     return {"curve": curve, "secret": sec.hex(), "contents": contents, "sim": sim, "mode": draw(st.sampled_from(["fill", "autofill"])),
+            "constants": constants,
             "node_counter": draw(st.one_of(st.integers(0, 1000), st.sampled_from([127, 128, 2 ** 14 - 1, 2 ** 32, 2 ** 63, 2 ** 64 - 2])))}
 
 
